@@ -51,12 +51,12 @@ template <typename C> static std::string text_of(C const& c)
 
 // integrand shapes
 // s_gap (not part of the shape loops): ordinary, except that the second iteration of the run yields zeros only
-enum shape { s_ordinary = 0, s_zero, s_const, s_zero_mean, s_nonfinite, s_negative, s_count, s_gap = s_count, s_gap0, s_cancel0, s_const01 };
+enum shape { s_ordinary = 0, s_zero, s_const, s_zero_mean, s_nonfinite, s_negative, s_count, s_gap = s_count, s_gap0, s_cancel0, s_const01, s_inf0 };
 static thread_local long alt_calls = 0; // evaluations of this rank in the current run
 static thread_local int iter_no = 0; // callbacks seen by this rank in the current run
 static char const* shape_name(int s)
 {
-    static char const* n[] = {"ordinary", "zero", "const", "zero_mean", "nonfinite", "negative", "gap", "gap0", "cancel0", "const01"};
+    static char const* n[] = {"ordinary", "zero", "const", "zero_mean", "nonfinite", "negative", "gap", "gap0", "cancel0", "const01", "inf0"};
     return n[s];
 }
 template <typename T> static T shape_value(int s, T x)
@@ -68,6 +68,8 @@ template <typename T> static T shape_value(int s, T x)
     case s_gap0: return iter_no == 0 ? T() : x * x + T(0.1);   // the first iteration yields zeros only
     // the values of the first iteration cancel exactly (estimate 0 with a small error): a result like any other
     case s_cancel0: return iter_no == 0 ? (alt_calls++ % 2 ? T(-0.125) : T(0.125)) : x * x + T(0.1);
+    // every non-zero value of the first iteration is infinite: that result has non-zero calls, the estimate 0 and the variance 0
+    case s_inf0: return iter_no == 0 ? (x < T(0.5) ? std::numeric_limits<T>::infinity() : T()) : x * x + T(0.1);
     case s_const: return T(2);
     case s_const01: return T(0.1);   // a constant that is not a short binary fraction: the sample variance is zero up to rounding (of either sign)
     case s_zero_mean: return x < T(0.5) ? T(1) : T(-1);
@@ -185,6 +187,9 @@ template <typename T, typename C> static char const* rel_class(C const& c, T tar
     {
         calls += r.calls();
         nz += r.non_zero_calls();
+        // a result with non-zero calls whose estimate and variance are both exactly zero (all its non-zero values were non-finite) enters
+        // the documented formula as 1 / 0 times 0: the combination is not a number, whatever the other results are
+        if (r.non_zero_calls() != 0 && r.variance() == T() && r.value() == T()) return "nan";
         if (r.non_zero_calls() != 0)
         {
             T v = r.variance();
@@ -409,6 +414,16 @@ template <typename T> static void c12_family(rng& g, bool thorough)
     // error 0.12) after two and 0.12 +- 0.008 (0.065) after three iterations - a target of 0.085 is reached at the third callback
     c12_run<plain_k<T>, T>(g, s_cancel0, 0, 0, true, 0.085, 0, false, (int) g.below(4));
     c12_run<vegas_k<T>, T>(g, s_cancel0, 0, 0, true, 0.085, 0, false, 0);
+    // first iteration: infinite values only - the combination stays undefined, no target is ever reached
+    c12_run<plain_k<T>, T>(g, s_inf0, 0, 0, true, 0.04, 0, false, (int) g.below(4));
+    c12_run<vegas_k<T>, T>(g, s_inf0, 0, 2, true, 0.04, 0, false, 0);
+    // many channels, some of them disabled or at the minimum weight, progress printed (mode 2, 3): the summary of the weights is part of the
+    // callback - it neither ends nor breaks the run
+    // (a target far out of reach: iterations of 200 calls, so that the channels differ in their expected numbers of calls)
+    c12_run<mc_k<T>, T>(g, s_ordinary, 35, 0, true, 1e-6, 0, false, 2);
+    c12_run<mc_k<T>, T>(g, s_ordinary, 22, 0, true, 1e-6, 0, false, 3);
+    c12_run<mc_k<T>, T>(g, s_ordinary, 38, 0, true, 1e-6, 0, false, 2);
+    c12_run<mc_k<T>, T>(g, s_ordinary, 11, 2, true, 1e-6, 0, false, 2);
     // a constant integrand (variance 0 +- rounding): nothing is thrown, nothing stops early without a reached target
     c12_run<plain_k<T>, T>(g, s_const01, 0, 0, true, 0.0, 0, false, (int) g.below(4));
     c12_run<vegas_k<T>, T>(g, s_const01, 0, 0, true, 0.01, 0, false, 0);
@@ -493,8 +508,11 @@ static void c20_run(rng& g, int shp, int variant, int world, double target, bool
                 bool ok = vt_mpi_run(world, (unsigned long long) id * 104729ULL + (unsigned) mode, [&](MPI_Comm comm, int rank) {
                     try
                     {
+                        // every process has its own working directory, as it were: the other ranks are given file names of their own
+                        std::string const rfile = rank == 0 ? file : file + ".rank" + std::to_string(rank);
+                        if (rank != 0) { std::remove(rfile.c_str()); std::remove((rfile + ".tmp").c_str()); }
                         C r = K::mpi_run(comm, shp, variant, K::fresh(variant), plan,
-                            recording_mpi_cb<C>{hep::mpi_callback<C>((hep::callback_mode) mode, file, T(target)), &texts, &rets});
+                            recording_mpi_cb<C>{hep::mpi_callback<C>((hep::callback_mode) mode, rfile, T(target)), &texts, &rets});
                         finals[(std::size_t) rank] = ids().id("t:" + text_of(r));
                     }
                     catch (vt_deadlock const&) { throw; }
@@ -510,6 +528,15 @@ static void c20_run(rng& g, int shp, int variant, int world, double target, bool
         std::cout.rdbuf(old);
         long long printed0 = capture.bytes[0], printed_other = 0;
         for (int r = 1; r != 64; ++r) printed_other += capture.bytes[r];
+        // output on rank 0 only: files written by the other ranks
+        long long files_other = 0;
+        for (int r = 1; r < world; ++r)
+            for (char const* suffix : {"", ".tmp"})
+            {
+                std::string const name = file + ".rank" + std::to_string(r) + suffix;
+                std::ifstream in(name.c_str());
+                if (in) { ++files_other; in.close(); std::remove(name.c_str()); }
+            }
         long long file_text = -1;
         {
             std::ifstream in(file.c_str());
@@ -533,7 +560,7 @@ static void c20_run(rng& g, int shp, int variant, int world, double target, bool
         }
         ev("Lane").i("run", id).i("mode", mode).a("facts", facts).a("pIters", printed_iters).a("pN", printed_n).a("pNnf", printed_nnf).s("kind", K::name()).s("T", type_name<T>::get()).s("shape", shape_name(shp)).i("variant", variant)
             .i("world", world).i("targetPos", target > 0 ? 1 : 0).a("texts", texts).a("rets", rets).i("final", final_text).s("status", status)
-            .i("printed0", printed0).i("printedOther", printed_other).i("fileText", file_text).i("badfile", badfile ? 1 : 0).emit();
+            .i("printed0", printed0).i("printedOther", printed_other).i("filesOther", files_other).i("fileText", file_text).i("badfile", badfile ? 1 : 0).emit();
     }
 }
 
